@@ -129,7 +129,7 @@ def saturated(ctx, base):
 
 
 def run(ctx):
-    return _scene.run_property(ctx, CFG, 2000, 30000, RULE, concrete, ASSUME, post=post, extra_lines=saturated)
+    return _scene.run_property(ctx, CFG, 3500, 30000, RULE, concrete, ASSUME, post=post, extra_lines=saturated)
 
 
 def replay(ctx, path):
